@@ -160,7 +160,7 @@ PROPS = {
     "C03": {
         "level": "proof",
         "lean_modules": ["CrabProofs.Props.C03", "CrabProofs.Props.C03Itv", "CrabProofs.Props.C03Cst", "CrabProofs.Props.C03Sgn",
-                         "CrabProofs.Props.C03CongDom", "CrabProofs.Props.C03Ric"],
+                         "CrabProofs.Props.C03CongDom", "CrabProofs.Props.C03Ric", "CrabProofs.Props.C03Rel"],
         "components": [idom_component("[C03]")] + xdom_components("[C03]") + dom_components("[C03]", 900, 12000) + dom2_components("[C03]", 400, 6000),
         "rule": DOM_RULE, "assumptions": DOM_ASSUME,
         "trusted_base": COMMON_TB + ["driver concrete semantics: lean/Driver/DomH.lean (definitions of the witness replay and of membership)"],
@@ -168,7 +168,7 @@ PROPS = {
     "C04": {
         "level": "proof",
         "lean_modules": ["CrabProofs.Props.C04", "CrabProofs.Props.C04Itv", "CrabProofs.Props.C04Cst", "CrabProofs.Props.C04Sgn",
-                         "CrabProofs.Props.C04CongDom", "CrabProofs.Props.C04Ric"],
+                         "CrabProofs.Props.C04CongDom", "CrabProofs.Props.C04Ric", "CrabProofs.Props.C04Rel"],
         "components": [idom_component("[C04]")] + xdom_components("[C04]") + dom_components("[C04]", 700, 10000) + dom2_components("[C04]", 300, 5000),
         "rule": DOM_RULE + "; C04 adds: all ordered pairs of the final pool for <=, x<=x, bot<=x, x<=top, is_bottom(bottom), is_top(top), is_top/is_bottom after set_to_*",
         "assumptions": DOM_ASSUME,
@@ -185,7 +185,7 @@ PROPS = {
     },
     "C01": {
         "level": "proof",
-        "lean_modules": ["CrabProofs.Props.C01Engine", "CrabProofs.Props.C01Prog", "CrabProofs.Props.C01XDom"],
+        "lean_modules": ["CrabProofs.Props.C01Engine", "CrabProofs.Props.C01Prog", "CrabProofs.Props.C01XDom", "CrabProofs.Props.C01Rel"],
         "components": [FIX_COMPONENT] + prog_components("[C01]", 500, 6000) + prog_components("[C01]", 250, 3000, ids=(15, 17, 13)) + rprog_components("[C01]", 1200, 12000),
         "rule": "(1) iterator harness as C06: random CFGs x relations x start blocks x assumption maps x delay/descending x widening/narrowing modes; every table entry of the real iterator must contain the Kleene least solution. (2) " + PROG_RULE,
         "assumptions": ["the statement->operation mapping of intra_abs_transformer, liveness pruning and thresholds are covered by the program harness (tested), the engine and the interval domain by theorems; the Sem contract of the other shipped domains is tested (C03 history harness + program harness)",
@@ -194,7 +194,7 @@ PROPS = {
     },
     "C05": {
         "level": "proof",
-        "lean_modules": ["CrabProofs.Props.C05", "CrabProofs.Props.C05Itv", "CrabProofs.Props.C05Chain", "CrabProofs.Props.C05Zones", "CrabProofs.Props.C05XDom"],
+        "lean_modules": ["CrabProofs.Props.C05", "CrabProofs.Props.C05Itv", "CrabProofs.Props.C05Chain", "CrabProofs.Props.C05Zones", "CrabProofs.Props.C05XDom", "CrabProofs.Props.C05Rel"],
         "components": [dict(FIX_COMPONENT, timeout=600)] + wchain_components() + zw_components(),
         "rule": "(1) same iterator harness as C06; every run is executed under a wall-clock watchdog; the model needs finite fuel on every generated CFG. (2) widening chains x_i = x_{i-1} widen y_i over 25 shipped domain instantiations and the wrapped_interval scalar (all widths): y_i independent values, loop-body images F(x_{i-1}) and F(x_{i-1}) | x0; plain widening, widening_thresholds with random threshold sets, delayed widening; adversarial sequences (ever-growing bounds, alternating variables, new relations, constants jumping over thresholds) and realistic loop bodies; every witness of both arguments must satisfy the result, the chain must reach a stationary suffix within 60-300 steps; narrowing of decreasing pairs must keep the second argument's states; non-trivial = at least two non-stationary steps. (3) zones widening chains given by in-language constraints (2-5 variables; two/three-counter families, one-constant-moves, translated loops, random and infeasible values; plain / widening_thresholds / probed / operator[]-on-stored modes) over split_dbm and sparse_dbm (5 instantiations) replayed by the PROVED model of C05Zones: bottom-ness, both inclusion flags and the closed result are compared entrywise per step",
         "assumptions": ["the widening chain condition is proved for intervals, the interval domain, congruences, constants and signs; for the other shipped domains it is tested by the chain harness (no stationary suffix within N steps is reported, a run cannot prove non-termination)", "inter-procedural recursion loops are only exercised by the C09 harness under its watchdog"],
